@@ -296,6 +296,32 @@ func runCheck(o *checkOpts) (*checkOutcome, error) {
 		}
 	}
 	out.results = u.dischargeAll(obls, dir, timeout, needTwo, 16)
+	// Second chance for undecided obligations (time-out / unknown, never for a sat answer):
+	// a load spike on the machine must not turn into an alarm. They are re-run a few at a
+	// time, when nothing else competes for the cores, with three times the budget.
+	if os.Getenv("GOVC_NO_RETRY") == "" {
+		var again []int
+		for i, r := range out.results {
+			if r.Obl.Expect != "sat" && !r.Obl.Quick && (r.Status == "timeout" || r.Status == "unknown") {
+				again = append(again, i)
+			}
+		}
+		if len(again) > 0 && len(again) <= 24 {
+			sub := make([]*Obl, len(again))
+			for k, i := range again {
+				sub[k] = obls[i]
+			}
+			rdir := filepath.Join(dir, "retry")
+			os.MkdirAll(rdir, 0o755)
+			res2 := u.dischargeAll(sub, rdir, timeout*3, needTwo, 4)
+			for k, i := range again {
+				first := out.results[i]
+				res2[k].Tried = append(append([]string{}, first.Tried...), append([]string{"retry:"}, res2[k].Tried...)...)
+				res2[k].AllSecs += first.AllSecs
+				out.results[i] = res2[k]
+			}
+		}
+	}
 	for i, r := range out.results {
 		switch {
 		case r.Obl.Expect == "sat":
